@@ -3,6 +3,10 @@ import corelib as C
 from corelib import mc_consts
 
 PID = "C08"
+# "gaining visibility delivers the whole entity and losing it removes the entity": in the visibility profiles
+# convergence / structure violations and deviations of the visibility bookkeeping belong to C08 as well
+VM = ("C01", "C03")
+VF = ("srv.cl", "net")
 
 
 def main(tier, seed, replay):
@@ -16,8 +20,8 @@ def main(tier, seed, replay):
         k.model_check("MC_Vis_black", mc_consts(policy="black", ops=3, **vis), inv)
         k.must_find("MC_Vis_Leak", mc_consts(impl="ImplLeak", policy="black", ops=3, **vis), ["Inv_C08"])
         k.must_find("MC_Vis_F14", mc_consts(impl="ImplF14", policy="white", kinds=("spawn", "setvis"), ops=5), inv)
-        tr = k.validate_profile("vis_black", 150)
-        k.validate_profile("vis_white", 150)
+        tr = k.validate_profile("vis_black", 150, extra_monitors=VM, extra_fields=VF)
+        k.validate_profile("vis_white", 150, extra_monitors=VM, extra_fields=VF)
         k.validate_profile("kf_f20", 1, known=("F20",))
     else:
         for pol in ("black", "white"):
@@ -27,8 +31,8 @@ def main(tier, seed, replay):
         k.must_find("MC_Vis_Leak", mc_consts(impl="ImplLeak", policy="black", ops=3, **vis), ["Inv_C08"])
         k.must_find("MC_Vis_F2", mc_consts(impl="ImplF2", policy="black", kinds=("spawn", "despawn", "setvis"), idle=2), inv)
         k.must_find("MC_Vis_F14", mc_consts(impl="ImplF14", policy="white", kinds=("spawn", "setvis"), ops=5), inv)
-        tr = k.validate_profile("vis_black", 3000)
-        k.validate_profile("vis_white", 3000)
+        tr = k.validate_profile("vis_black", 3000, extra_monitors=VM, extra_fields=VF)
+        k.validate_profile("vis_white", 3000, extra_monitors=VM, extra_fields=VF)
         k.validate_profile("kf_f20", 1, known=("F20",))
     k.selftest(tr)
     return k.finish(assumptions=[
